@@ -84,7 +84,7 @@ def tracing_for(index, mode="cycle"):
 
 # strictness deviations (at most one) and rewrite deviations (any subset); see interp.Interp for their meaning
 STRICTNESS = [("call-by-need", ("lazy",)), ("call-by-need-expect-cast", ("lazy", "lazy_expect"))]
-REWRITES = [("F2_list_tail_order", ("f2",)), ("F3_cast_cancel", ("f3",)), ("F6_and_false", ("f6",))]
+REWRITES = [("F2_list_tail_order", ("f2",)), ("F3_cast_cancel", ("f3",)), ("F3_cast_cancel_expect", ("f3x",)), ("F6_and_false", ("f6",))]
 LABELS = [x[0] for x in STRICTNESS] + [x[0] for x in REWRITES]
 
 
@@ -93,13 +93,13 @@ def _candidates():
     out = []
     for n in range(0, len(REWRITES) + 1):
         for rw in itertools.combinations(REWRITES, n):
-            for st in [None] + STRICTNESS:
-                if st is None and not rw:
-                    continue
+            for st in ([None] + STRICTNESS if rw else STRICTNESS):
                 atoms = ([st[0]] if st else []) + [x[0] for x in rw]
                 dev = set(st[1] if st else ()) | set(d for x in rw for d in x[1])
                 out.append(("+".join(atoms), dev))
-    out.sort(key=lambda x: (x[0].count("+"), 0))
+    # fewest deviations first; among equally small sets, pure rewrites (the more specific explanation) before
+    # strictness deviations
+    out.sort(key=lambda x: (x[0].count("+"), 1 if any(x[0].startswith(s[0]) for s in STRICTNESS) else 0))
     return out
 
 
@@ -139,13 +139,28 @@ def explain_case(case, entry, k, tracing, got):
     m = case["module"]
     e = [x for x in m.entries if x.fn.name == entry["name"]][0]
     args = list(entry["values"][k])
+    def same(r):
+        return (o[0] == "ok" and r[0] == "ok" and r[1] == o[1]) or (o[0] == "abort" and r[0] == "abort")
+
     for label, dev in CANDIDATES:
         try:
-            r = interp.run(m, e, args, FUEL, dev=dev)
+            if "f2" not in dev:
+                if same(interp.run(m, e, args, FUEL, dev=dev)):
+                    return label
+                continue
+            # f2 is non-deterministic (any matching clause at a `when` with the trigger shape): explore the choices
+            stack, tried = [[]], 0
+            while stack and tried < 200:
+                ch = stack.pop()
+                tried += 1
+                r, trace = interp.run_choices(m, e, args, FUEL, dev, ch)
+                if same(r):
+                    return label
+                for i in range(len(ch), min(len(trace), 12)):
+                    for alt in range(1, trace[i]):
+                        stack.append(ch + [0] * (i - len(ch)) + [alt])
         except Exception:
             continue
-        if (o[0] == "ok" and r[0] == "ok" and r[1] == o[1]) or (o[0] == "abort" and r[0] == "abort"):
-            return label
     return None
 
 
